@@ -28,6 +28,10 @@ def BIx.toIxE : BIx → IxE
   | .slice a b c => .slice a b c
   | .newaxis => .newaxis
 
+def BIx.isNewaxis : BIx → Bool
+  | .newaxis => true
+  | _ => false
+
 def BIx.zeroStep : BIx → Bool
   | .slice _ _ (some c) => c == 0
   | _ => false
@@ -375,9 +379,42 @@ def sExpandDims (d : Dense) (axis : Int) : Except Err Dense :=
   | .error e => .error e
   | .ok pos => .ok { shape := COO.insertAt d.shape pos 1, fill := d.fill, val := fun k => d.val (k.eraseIdx pos) }
 
-/-- basic indexing: result element `j` reads operand element `Spec.compose n j` -/
+/-- NumPy's meaning of one basic index entry on an axis of extent `d`: an integer `-d ≤ i < d`
+counts from the end when negative (`IndexError` otherwise); a slice selects CPython's
+`slice.indices(d)` = `Spec.pyAdjust` -/
+def npEntry (e : BIx) (d : Nat) : Except Err NIx :=
+  match e with
+  | .int i => if -(d : Int) ≤ i ∧ i < (d : Int) then .ok (.int (if i < 0 then i + (d : Int) else i)) else .error .index
+  | .slice a b c => let t := Spec.pyAdjust a b (c.getD 1) (d : Int); .ok (.slice t.1 t.2.1 t.2.2)
+  | .newaxis => .ok .newaxis
+
+/-- entry by entry, left to right; `None` consumes no axis -/
+def npGo : List BIx → List Nat → Except Err (List NIx)
+  | [], _ => .ok []
+  | .newaxis :: rest, dims =>
+    match npGo rest dims with
+    | .ok r => .ok (.newaxis :: r)
+    | .error e => .error e
+  | _ :: _, [] => .error .index
+  | e :: rest, d :: ds =>
+    match npEntry e d with
+    | .error er => .error er
+    | .ok h =>
+      match npGo rest ds with
+      | .ok r => .ok (h :: r)
+      | .error er => .error er
+
+/-- the whole tuple: more entries than axes is an `IndexError`; missing trailing entries are `:` -/
+def npIndex (idx : List BIx) (shape : List Nat) : Except Err (List NIx) :=
+  let n := (idx.filter fun e => !e.isNewaxis).length
+  if n > shape.length then .error .index
+  else npGo (idx ++ List.replicate (shape.length - n) (.slice none none none)) shape
+
+/-- basic indexing: with every entry given NumPy's meaning (`npIndex`), result element `j` reads
+operand element `Spec.compose n j` (integer: that coordinate; slice `(a, b, s)`: coordinate
+`a + j[k] * s`, extent `len(range(a, b, s))`; `None`: a new axis of extent 1) -/
 def sGetitem (d : Dense) (idx : List BIx) : Except Err Dense :=
-  match normalizeIndex (idx.map BIx.toIxE) d.shape with
+  match npIndex idx d.shape with
   | .error e => .error e
   | .ok n =>
     if idx.any BIx.zeroStep then .error .value
